@@ -125,6 +125,11 @@ Glu_alloc(
 	else fsupc = jcol;
 	*prev_next = Glu->map_in_sup[fsupc];
 	Glu->map_in_sup[fsupc] += num;
+#ifdef SLU_MT_VERIF
+	{   long vq[3]; vq[0] = *prev_next; vq[1] = fsupc; vq[2] = 0;
+	    SLU_VERIF_EV(SLU_VEV_ALLOC, pnum, LUSUP, jcol, num, vq);
+	}
+#endif
 
 #if 0
 	{
@@ -180,6 +185,11 @@ Glu_alloc(
 	    }
 	    *prev_next = nextu;
 	    Glu->nextu = new_next;
+#ifdef SLU_MT_VERIF
+	    {   long vq[3]; vq[0] = nextu; vq[1] = Glu->nzumax; vq[2] = 0;
+		SLU_VERIF_EV(SLU_VEV_ALLOC, pnum, mem_type, jcol, num, vq);
+	    }
+#endif
 
 	} /* end of critical region */
 	
@@ -223,6 +233,11 @@ Glu_alloc(
 	  }
 	  *prev_next = nextl;
 	  Glu->nextl = new_next;
+#ifdef SLU_MT_VERIF
+	  {   long vq[3]; vq[0] = nextl; vq[1] = Glu->nzlmax; vq[2] = 0;
+	      SLU_VERIF_EV(SLU_VEV_ALLOC, pnum, LSUB, jcol, num, vq);
+	  }
+#endif
 	  
 	} /* end of #pragama critical lock() */
 	
@@ -281,6 +296,11 @@ DynamicSetMap(
 	nextlu = Glu->nextlu;
 	map_in_sup[jcol] = nextlu;
 	new_next = nextlu + num;
+#ifdef SLU_MT_VERIF
+	{   long vq[3]; vq[0] = nextlu; vq[1] = Glu->nzlumax; vq[2] = 1; /* dynamic slot [nextlu, nextlu+num) */
+	    SLU_VERIF_EV(SLU_VEV_ALLOC, pnum, 100, jcol, num, vq);
+	}
+#endif
 	if ( new_next > Glu->nzlumax ) {
 	    XPAND_HINT("L supernodes", new_next, jcol, 6);
 	}
